@@ -1,14 +1,9 @@
-"""Per-property configuration of the generic (table-driven) checks."""
+"""Per-property configuration of the generic (table-driven) checks: lib/props.d/<id>.json
+   {"groups": [...], "rule": "...", "exhaustive": bool, "release_too": bool, "release_quick": bool}"""
+import glob
+import json
+import os
 
-PROPS = {
-    "C04": {
-        "groups": ["c04"],
-        "rule": ("bounded-exhaustive: every haystack x needle over {a,b,e-acute,-} (haystack <= 4 chars quick / 5 thorough, needle <= 3), "
-                 "raw byte strings over {a,b,C3,A9,FF}, binary-alphabet haystacks up to 7/9 with needles up to 4/5, 14 char patterns "
-                 "incl. every UTF-8 length boundary, all four pattern kinds (str, char, [u8], [u8;N]), plus seeded random needle-rich "
-                 "haystacks up to 40 chars; a case is one (haystack, needle) pair carrying all 8-10 search functions; non-trivial = "
-                 "the needle occurs (once / several times) or has a proper border (self-overlap)"),
-        "exhaustive": True,
-        "release_too": False,
-    },
-}
+PROPS = {}
+for _p in sorted(glob.glob(os.path.join(os.path.dirname(os.path.abspath(__file__)), "props.d", "C*.json"))):
+    PROPS[os.path.basename(_p)[:-5]] = json.load(open(_p))
